@@ -938,6 +938,21 @@ fn c19_other_types_real() {
     kani::cover!(!e && names_ci_equal(&a, &b), "RDATA differing only in case are unequal for these types");
 }
 
+// ---- reflexivity, stated on its own ------------------------------------------
+
+// @harness props=C19 tier=thorough mem=6 t=2400 fn="Rdata::equals,helpers::names_equal,helpers::test_n_name_fields,Name::try_from_uncompressed,<Name as PartialEq>::eq,<Label as PartialEq>::eq"
+//   bound="type NS, any class; one RDATA of length 3 and one of length 4, each compared with itself, all octet values (reflexivity is also implied by equals == ref_equals on the equal-length pairs and asserted in every skeleton harness); unwind 6"
+//   sym="a:[u8;3]; b:[u8;4]; class:u16" stubs="eq_ignore_ascii_case"
+#[kani::proof]
+#[kani::unwind(6)]
+#[kani::stub(<[u8]>::eq_ignore_ascii_case, eq_ic_model)]
+fn c19_ns_refl_3_4() {
+    let class = any_class();
+    refl::<3>(class, 2);
+    refl::<4>(class, 2);
+    kani::cover!(true, "reached");
+}
+
 // ---- transitivity -----------------------------------------------------------
 
 // @harness props=C19 tier=thorough mem=8 t=3000 fn="Rdata::equals,helpers::names_equal,helpers::test_n_name_fields,Name::try_from_uncompressed,<Name as PartialEq>::eq,<Label as PartialEq>::eq"
